@@ -28,8 +28,9 @@ conversion acts elementwise on numbers, lists, tuples and ndarrays alike.
 
 The database is a parameter `Env` (category → quantity type, `Convert` on a number, the validation of
 `CreateDerived`); `Env.ofDb` instantiates it with the `Conv` engine over a generated table.
-Quantities are the ordered dict `category → [unit, exponent]` (`unknown_unit_caption` is not modelled:
-all modelled quantities have the empty caption).
+Quantities are the ordered dict `category → [unit, exponent]` (`unknown_unit_caption` is not part of it; what
+`Scalar._DoOperation` with a plain number does to the caption of a captioned unknown unit is `scalarNumCaption`;
+every other modelled quantity has the empty caption).
 -/
 import Barril.Model.Conv
 import Barril.Model.StrRender
@@ -455,6 +456,19 @@ def scalarDoOp (env : Env) (q : Quantity) (v : Rat) (p1 p2 : Operand) (op : Op) 
                 match applyOp op t1 t2 v v2 with   -- value1 is self._value
                 | .error e => .error e
                 | .ok r => .ok (.scalar qr r)
+
+/-- `unknown_unit_caption` of the quantity of the result of `Scalar._DoOperation` when the other operand is a plain
+number (`cap` = the caption of `self._quantity`, e.g. `ObtainQuantity('<unknown>', None, 'furlongs')`; 0 = none; the
+ordered dict `Quantity` does not hold it): the two number branches hand `self._quantity` ITSELF to
+`CreateWithQuantity`, caption included; `number / scalar` and `number // scalar` go through `Divide` / `FloorDivide`,
+whose `Quantity.CreateDerived(dict)` builds a quantity without a caption.  Same branch structure as `scalarDoOp`. -/
+def scalarNumCaption (cap : Sym) (p1 p2 : Operand) (op : Op) : Sym :=
+  match isNumber p1, isDivision op with
+  | some _, false => cap
+  | _, _ =>
+    match isNumber p2 with
+    | some _ => cap
+    | none => 0
 
 /-! ### `_ValueGenerator` -/
 
